@@ -66,7 +66,7 @@ fn site_expr(k: i64, f: &str, arg: X) -> X {
     X::call("r", X::Vec(vec![X::int(k), X::call(f, t)]))
 }
 
-pub fn generate(seed: u64) -> Scenario {
+pub fn generate(seed: u64, thorough: bool) -> Scenario {
     let mut rng = Rng::new(seed);
     let mut scn = Scenario::new("C11");
     let ncache = 2 + rng.usize(2);
@@ -113,7 +113,9 @@ pub fn generate(seed: u64) -> Scenario {
     // (a size-limited or evicting cache would show here)
     let big = rng.chance(1, 10);
     if big {
-        let n = 20 + rng.usize(60);
+        // log-uniform: mostly 20–90 distinct arguments, rarely up to ~1 400 (thorough: ~11 000)
+        let max_log = if !rng.chance(1, 20) { 6.5 } else if thorough { 13.5 } else { 10.5 };
+        let n = 2.0f64.powf(4.3 + (rng.below(1000) as f64 / 1000.0) * (max_log - 4.3)) as usize;
         mine = (0..n).map(|i| X::Val(XV::I(1000 + i as i64))).collect();
     }
     let nfn_used = 1 + rng.usize(names.len());
@@ -191,7 +193,7 @@ pub fn generate(seed: u64) -> Scenario {
     let p_spur = *rng.pick(&[0, 0, 150]);
     scn.picks = random_picks(&mut rng, 120, ntasks, p_spur, 80);
     scn.exec.fresh_waker = rng.chance(1, 5);
-    scn.exec.max_steps = if big { 20_000 } else { 1500 };
+    scn.exec.max_steps = if big { 20_000 + 40 * mine.len() as u32 * 4 } else { 1500 };
     if big {
         // keep the big evaluations cheap: few suspensions
         scn.behaviour.retain(|b| b.call % 7 == 0);
@@ -305,6 +307,7 @@ pub fn check(scn: &Scenario, c: &mut Counters) -> Verdict {
 
     for task in 0..ntasks {
         let mut cache: HashMap<(String, String), String> = HashMap::new();
+        let mut distinct_keys_warned = false;
         let mut failed_keys: HashMap<(String, String), u32> = HashMap::new();
         let mut observed_r: HashMap<i64, String> = HashMap::new();
         let mut failed_site: HashMap<usize, Vec<(i64, String, String)>> = HashMap::new(); // rule -> (site, fn, msg)*
@@ -402,6 +405,10 @@ pub fn check(scn: &Scenario, c: &mut Counters) -> Verdict {
                         hist.push(if is_cacheable { 'm' } else { 'u' });
                         if is_cacheable {
                             cache.insert((site.f.clone(), a.clone()), val.clone());
+                            if cache.len() >= 256 && !distinct_keys_warned {
+                                distinct_keys_warned = true;
+                                c.bump("hit.evaluation_with_256_or_more_distinct_cached_calls");
+                            }
                             if failed_keys.contains_key(&(site.f.clone(), a.clone())) {
                                 c.bump("hit.reinvoked_after_failure_of_same_key");
                                 nontrivial = true;
